@@ -20,7 +20,7 @@ from pathlib import Path
 from .. import evidence, tlc
 from ..common import MachineryError, Timer, guarded, log, pmap, scratch_dir, seed, workdir
 from ..findings import Reporter
-from ..langs import LANGS, corpus_files, language, lexer_for
+from ..langs import LANGS, code_table, corpus_files, language, lexer_for
 from ..mutate import BYTE_KINDS, EXTRA_BASES, alphabet, mutate
 from ..render import TRAITS, applicable, render
 from ..tlaval import dump_chunks, parse, parse_state, read_dump
@@ -103,14 +103,7 @@ def observe_input(arg):
         lines = data.split("\n")
         ev["nlines"] = len(lines)
         ev["linelen"] = [len(x) for x in lines]
-        toks = []
-        for t in filter_tokens(tokens):
-            v = t.value
-            nl = v.count("\n")
-            el = t.location.line + nl
-            ec = (len(v) - v.rfind("\n")) if nl else t.location.column + len(v)
-            toks.append({"l": t.location.line, "c": t.location.column, "el": el, "ec": ec, "name": v if t.is_name() else ""})
-        ev["toks"] = toks
+        ev["toks"] = code_table(lang, data)
     else:
         ev.update(nlines=1, linelen=[0], toks=[], meas=[] if not table else ev["meas"])
         if table and ms:
@@ -169,14 +162,7 @@ def observe_renamed(arg):
         lines = text.split("\n")
         ev["nlines"] = len(lines)
         ev["linelen"] = [len(x) for x in lines]
-        toks = []
-        for t in filter_tokens(tokens):
-            v = t.value
-            nl = v.count("\n")
-            el = t.location.line + nl
-            ec = (len(v) - v.rfind("\n")) if nl else t.location.column + len(v)
-            toks.append({"l": t.location.line, "c": t.location.column, "el": el, "ec": ec, "name": v if t.is_name() else ""})
-        ev["toks"] = toks
+        ev["toks"] = code_table(lb, text)
     else:
         ev.update(nlines=1, linelen=[0], toks=[])
     return ev
